@@ -193,6 +193,29 @@ Definition namespace (n : record_name) : option (list N) :=
 
 Definition attr (name value : list N) : list N := B " " ++ name ++ B "=""" ++ value ++ B """".
 
+(** [*max < 0.0] on a float given by its bit pattern: sign bit set, not -0.0, not NaN
+    (-inf included) *)
+Definition f64_lt_zero (f : f64t) : bool :=
+  (0x8000000000000000 <? f64_bits f) && (f64_bits f <=? 0xfff0000000000000).
+Definition f32_lt_zero (f : f32t) : bool :=
+  (0x80000000 <? f32_bits f) && (f32_bits f <=? 0xff800000).
+
+(** the value of a float prototype element:
+    [match (min, max) { (Some(min), _) => min, (None, Some(max)) if max < 0.0 => max, _ => 0.0 }],
+    printed *)
+Definition proto_value64 (mn mx : option f64t) : list N :=
+  match mn, mx with
+  | Some f, _ => f64_text f
+  | None, Some f => if f64_lt_zero f then f64_text f else B "0"
+  | None, None => B "0"
+  end.
+Definition proto_value32 (mn mx : option f32t) : list N :=
+  match mn, mx with
+  | Some f, _ => f32_text f
+  | None, Some f => if f32_lt_zero f then f32_text f else B "0"
+  | None, None => B "0"
+  end.
+
 (** [serialize_record_type]: attribute string (here with the blank that
     [Record::xml_string] puts before it) and element text *)
 Definition serialize_record_type (t : data_type) : list N * list N :=
@@ -201,12 +224,12 @@ Definition serialize_record_type (t : data_type) : list N * list N :=
       (B " type=""Float"" precision=""single""" ++
        opt_gen (fun f => attr (B "minimum") (f32_text f)) mn ++
        opt_gen (fun f => attr (B "maximum") (f32_text f)) mx,
-       match mn with Some f => f32_text f | None => B "0" end)
+       proto_value32 mn mx)
   | DDouble mn mx =>
       (B " type=""Float""" ++
        opt_gen (fun f => attr (B "minimum") (f64_text f)) mn ++
        opt_gen (fun f => attr (B "maximum") (f64_text f)) mx,
-       match mn with Some f => f64_text f | None => B "0" end)
+       proto_value64 mn mx)
   | DScaledInteger mn mx scale offset =>
       (B " type=""ScaledInteger""" ++ attr (B "minimum") (display_i mn) ++ attr (B "maximum") (display_i mx) ++
        attr (B "scale") (f64_text scale) ++ attr (B "offset") (f64_text offset),
